@@ -83,14 +83,17 @@ Proof. intros P n Hn. apply (derivable_ev c (n + 1) (P (n + 1)) n); lia. Qed.
 
 (* tables must vanish (be the default) at negative sizes for the providers to agree there *)
 Hypothesis T_neg : forall c m, m < 0 -> T c m = dflt.
-Hypothesis op_neg : forall r p o n, n < 0 -> r_op r p o n = dflt.
+(* only for the rules OF THE SPECIFICATION (a hypothesis over every conceivable operator would be
+   unsatisfiable) *)
+Hypothesis op_neg : forall c r, spec c = Some r -> forall p o n, n < 0 -> r_op r p o n = dflt.
 
 Hypothesis all_local : forall c r, spec c = Some r -> local r.
 Hypothesis all_genuine : forall c r, spec c = Some r -> genuine c r.
 
 Lemma eval_neg fuel c n : n < 0 -> eval fuel c n = dflt.
 Proof.
-  intros Hn. destruct fuel as [|f]; simpl; auto. destruct (spec c) as [r|]; auto.
+  intros Hn. destruct fuel as [|f]; simpl; auto. destruct (spec c) as [r|] eqn:E; auto.
+  apply (op_neg c r E); auto.
 Qed.
 
 (* evaluation returns the true table once the fuel is large enough *)
@@ -141,7 +144,7 @@ Proof.
     destruct (G n) as [fo Ho']. exists fo. intros m Hm0 Hmn. apply Ho'; auto. }
   exists (S (Nat.max fk fo)). intros f Hf. destruct f as [|f]; [lia|]. simpl. rewrite Hs.
   destruct (Z_lt_le_dec n 0) as [Hneg|Hnn].
-  { rewrite op_neg by auto. symmetry. apply T_neg; auto. }
+  { rewrite (op_neg c r Hs) by auto. symmetry. apply T_neg; auto. }
   rewrite <- (all_genuine c r Hs n Hnn).
   apply (all_local c r Hs).
   - intros i m Hi Hm. destruct (Z_lt_le_dec m 0) as [Hm0|Hm0].
